@@ -177,6 +177,16 @@ def rule_free(ctx):
     body = U.body_nodoc(f.node)
     ok = isinstance(body[0], ast.If) and norm(body[0].test) == f'{f.params[1]} is None' and isinstance(body[0].body[0], ast.Return)
     ctx.ob('C16.free', f'{f.fq}:none-guard', ok, 'freeing None does nothing', f.node, mod)
+    # a caller-supplied address indexes the slot array only after a two-sided range test: a negative slot index wraps around
+    # (Python) and releases somebody else's live block
+    p1 = f.params[1]
+    rng = [i for i, s in enumerate(body) if isinstance(s, ast.If) and isinstance(s.body[0], ast.Return) and
+           norm(s.test) in (f'not 0 <= {p1} - self.addr_offset < self.size', f'{p1} - self.addr_offset < 0 or {p1} - self.addr_offset >= self.size',
+                            f'not self.addr_offset <= {p1} < self.addr_offset + self.size')]
+    sub = [i for i, s in enumerate(body) if any(isinstance(x, ast.Subscript) and norm(x.value) == 'self._array' for x in ast.walk(s))]
+    ctx.ob('C16.free', f'{f.fq}:address-in-partition', bool(rng) and bool(sub) and rng[0] < min(sub),
+           f'free({p1}) must return for an address outside [addr_offset, addr_offset + size) before it indexes the slot array '
+           f'(range test at {rng}, first use at {min(sub) if sub else None})', f.node, mod)
     guard = [s for s in body if isinstance(s, ast.If) and norm(s.test) == 'block is not None and block.used']
     ctx.ob('C16.free', f'{f.fq}:used-guard', len(guard) == 1, 'state changes only for a block that exists and is in use', f.node, mod)
     outside = []
@@ -368,6 +378,8 @@ def run(ctx):
 
 
 MUTANTS = [
+    dict(rule='C16.free', name='(fix reverted) free indexes the slot array with an unchecked address', file='sc3/synth/_engine.py',
+         old="        if not 0 <= addr - self.addr_offset < self.size:\n            return  # Not an address of this allocator.\n", new=""),
     dict(rule='C16.part', name='login count stored after the allocators are rebuilt (seed C16-c)', file='sc3/synth/_serverstatus.py',
          old="        if not self.server._in_process and new_max_logins is not None:\n            self._max_logins = new_max_logins\n        _logger.info(\n            f\"'{self.server.name}': setting client_id to {new_client_id}\")\n        self.server._set_client_id(new_client_id)",
          new="        _logger.info(\n            f\"'{self.server.name}': setting client_id to {new_client_id}\")\n        self.server._set_client_id(new_client_id)\n        if not self.server._in_process and new_max_logins is not None:\n            self._max_logins = new_max_logins"),
